@@ -142,23 +142,29 @@ def _apply(c, it, o, g, op, draws, ext, uid):
     if op in ("randA", "randB"):
         Nr, Nt = SPLIT_A if op == "randA" else SPLIT_B
         n0 = len(draws)
+        a_nr, a_nt = Nr.copy(), Nt.copy()          # the CALLER's arrays with the antenna counts
         if ext:
-            it.call(it.getattr(o, "randomize"), [Nr.copy(), Nt.copy(), 2, 1])
+            it.call(it.getattr(o, "randomize"), [a_nr, a_nt, 2, 1])
             g.Nr, g.Nt = Nr.copy(), np.hstack([Nt, [1]])
         else:
-            it.call(it.getattr(o, "randomize"), [Nr.copy(), Nt.copy(), 2])
+            it.call(it.getattr(o, "randomize"), [a_nr, a_nt, 2])
             g.Nr, g.Nt = Nr.copy(), Nt.copy()
+        a_nr[:] = 5           # ... which the caller goes on using for the next scenario: the channel keeps ITS antenna split
+        a_nt[:] = 4
         g.raw = draws[n0]
     elif op == "initB":
         Nr, Nt = SPLIT_B
         cols = int(Nt.sum()) + (1 if ext else 0)
         M = _cmat(c, "M%s" % uid, int(Nr.sum()), cols)
+        a_nr, a_nt = Nr.copy(), Nt.copy()
         if ext:
-            it.call(it.getattr(o, "init_from_channel_matrix"), [M, Nr.copy(), Nt.copy(), 2, 1])
+            it.call(it.getattr(o, "init_from_channel_matrix"), [M, a_nr, a_nt, 2, 1])
             g.Nr, g.Nt = Nr.copy(), np.hstack([Nt, [1]])
         else:
-            it.call(it.getattr(o, "init_from_channel_matrix"), [M, Nr.copy(), Nt.copy(), 2])
+            it.call(it.getattr(o, "init_from_channel_matrix"), [M, a_nr, a_nt, 2])
             g.Nr, g.Nt = Nr.copy(), Nt.copy()
+        a_nr[:] = 5
+        a_nt[:] = 4
         g.raw = M
     elif op in ("pl1", "pl2"):
         P = _pmat(c, "P%s" % uid, 2, 2)
@@ -224,10 +230,16 @@ def _native_history(seq, ext, seed=0):
             Nr, Nt = SPLIT_A if op == "randA" else SPLIT_B
             if op == "initB":
                 M = rr.randn(int(Nr.sum()), int(Nt.sum()) + (1 if ext else 0)) + 1j * rr.randn(int(Nr.sum()), int(Nt.sum()) + (1 if ext else 0))
-                o.init_from_channel_matrix(*([M.copy(), Nr.copy(), Nt.copy(), 2] + ([1] if ext else [])))
+                a_nr, a_nt = Nr.copy(), Nt.copy()
+                o.init_from_channel_matrix(*([M.copy(), a_nr, a_nt, 2] + ([1] if ext else [])))
+                a_nr[:] = 5
+                a_nt[:] = 4
                 st["raw"] = M
             else:
-                o.randomize(*([Nr.copy(), Nt.copy(), 2] + ([1] if ext else [])))
+                a_nr, a_nt = Nr.copy(), Nt.copy()
+                o.randomize(*([a_nr, a_nt, 2] + ([1] if ext else [])))
+                a_nr[:] = 5
+                a_nt[:] = 4
                 st["raw"] = np.array(o._big_H_no_pathloss)
             st["Nr"], st["Nt"] = Nr.copy(), (np.hstack([Nt, [1]]) if ext else Nt.copy())
         elif op in ("pl1", "pl2"):
